@@ -682,13 +682,16 @@ class Interp:
         if op == "^":
             return (R, wrap(x ^ y, R))
         if op in ("/", "%"):
+            if "div-unsigned" in self.D:
+                # the unsigned IL operators are total: no overflow case, x / 0 = all ones, x % 0 = x
+                ux, uy = x & mask(R[1]), y & mask(R[1])
+                if uy == 0:
+                    return (R, wrap(mask(R[1]) if op == "/" else ux, R))
+                return (R, wrap(ux // uy if op == "/" else ux % uy, R))
             if y == 0:
                 raise CUndefined("division by zero")
             if R[0] and x == -(1 << (R[1] - 1)) and y == -1:
                 raise CUndefined("signed division overflow")
-            if "div-unsigned" in self.D:
-                ux, uy = x & mask(R[1]), y & mask(R[1])
-                return (R, wrap(ux // uy if op == "/" else ux % uy, R))
             q = abs(x) // abs(y)
             if (x < 0) != (y < 0):
                 q = -q
